@@ -20,7 +20,7 @@ RULE = (
     "non-trivial = repeated single-agent measurements / unequal chains / >=2 samples present"
 )
 ASSUMPTIONS = ["correlation cases whose centred prediction row is (nearly) identically zero (length below 1e-13: 0/0 diagonal) are detected and skipped; for near-replicate samples (lengths 1e-13 .. 1e-9) the tolerance on the entries grows with 2e-14 / length, the diagonal stays at 1e-9"]
-REQUIRED = {"single_effect_cases_with_ids_of_another_integer_width": {"quick": 40, "thorough": 1000}, "correlation_cases_with_permuted_supplied_mappings": {"quick": 40, "thorough": 800}, "correlation_cases_near_replicate_samples": {"quick": 10, "thorough": 250}, "synergy_cases_with_integer_observations": {"quick": 60, "thorough": 1500}, "analysis_cli_runs": {"quick": 8, "thorough": 80}, "evaluation_cases": {"quick": 300, "thorough": 8000}, "single_effect_cases": {"quick": 300, "thorough": 8000}, "single_effect_cases_with_sparse_ids": {"quick": 80, "thorough": 2000}, "synergy_cases": {"quick": 300, "thorough": 8000}, "correlation_cases": {"quick": 60, "thorough": 1500}, "combinatoric_space_cases": {"quick": 100, "thorough": 2500}}
+REQUIRED = {"single_effect_cases_with_failed_wells": {"quick": 100, "thorough": 2000}, "synergy_cases_with_failed_wells": {"quick": 40, "thorough": 800}, "single_effect_cases_with_ids_of_another_integer_width": {"quick": 40, "thorough": 1000}, "correlation_cases_with_permuted_supplied_mappings": {"quick": 40, "thorough": 800}, "correlation_cases_near_replicate_samples": {"quick": 10, "thorough": 250}, "synergy_cases_with_integer_observations": {"quick": 60, "thorough": 1500}, "analysis_cli_runs": {"quick": 8, "thorough": 80}, "evaluation_cases": {"quick": 300, "thorough": 8000}, "single_effect_cases": {"quick": 300, "thorough": 8000}, "single_effect_cases_with_sparse_ids": {"quick": 80, "thorough": 2000}, "synergy_cases": {"quick": 300, "thorough": 8000}, "correlation_cases": {"quick": 60, "thorough": 1500}, "combinatoric_space_cases": {"quick": 100, "thorough": 2500}}
 N_CASES = {"quick": 1920, "thorough": 24000}
 
 
@@ -159,6 +159,13 @@ def run_shard(rec, tier, seed, shard, nshards):
                 for i in range(n):
                     if rng.random() < 0.35:
                         ob[i] = float(rng.choice([0.0, 0.0, 1.0, 0.25, -0.25]))
+            if rng.random() < 0.2:
+                # failed wells: a NaN among the replicates of a condition (the mean of such replicates is NaN - the
+                # effect of that condition is unknown, not the mean of the wells that happened to work)
+                for i in range(n):
+                    if rng.random() < 0.25:
+                        ob[i] = float("nan")
+                rec.count("single_effect_cases_with_failed_wells")
             w = {"arity": arity, "sample_ids": sids.tolist(), "treatment_ids": tids.tolist()}
             single_rows = {}
             for i in range(n):
@@ -216,6 +223,11 @@ def run_shard(rec, tier, seed, shard, nshards):
                 dt_ = [np.int64, np.int32, np.uint8, bool][int(rng.integers(4))]
                 ob = (rng.random(n) < 0.6).astype(dt_) if dt_ is bool else rng.integers(0, 3, size=n).astype(dt_)
                 rec.count("synergy_cases_with_integer_observations")
+            elif rng.random() < 0.15:
+                for i in range(n):
+                    if rng.random() < 0.2:
+                        ob[i] = float("nan")
+                rec.count("synergy_cases_with_failed_wells")
             # make sure some combination rows lack a single-agent measurement
             w = {"sample_ids": sids.tolist(), "treatment_ids": tids.tolist()}
             single_rows = {}
